@@ -1,8 +1,8 @@
 """All jobs and the property table."""
-from . import jobs_util, jobs_perm, jobs_aead, jobs_spec, jobs_clean, native
+from . import jobs_util, jobs_perm, jobs_aead, jobs_spec, jobs_clean, jobs_hash, native
 
 JOBS = {}
-for mod in (jobs_util, jobs_perm, jobs_aead, jobs_spec, jobs_clean):
+for mod in (jobs_util, jobs_perm, jobs_aead, jobs_spec, jobs_clean, jobs_hash):
     for j in mod.JOBS:
         assert j["name"] not in JOBS, j["name"]
         JOBS[j["name"]] = j
@@ -118,6 +118,39 @@ PROPS["C20"] = {
     "technique": "CBMC loop contract with ghost index on the real tinyjambu-clean.c; loop-free harnesses for the free functions",
     "trusted": TRUSTED,
     "exhaustive": False,
+}
+
+for n, j in JOBS.items():
+    if n.startswith("hash."):
+        j["replay"] = native.lib_replay("hash")
+    if n.startswith("util."):
+        j["replay"] = native.aead_campaign_replay
+    if n.startswith("clean."):
+        j["replay"] = native.lib_replay("clean")
+    if n.startswith("free."):
+        j["replay"] = native.lib_replay("free")
+PROPS["C20"]["campaign"] = native.lib_campaign("clean")
+
+HASH_Q = ["hash.init", "hash.reinit", "hash.finalize", "hash.update.grid", "hash.oneshot.seq", "free.hash"]
+PROPS["C10"] = {
+    "level": "proof",
+    "quick": ["perm256.R20"] + HASH_Q,
+    "thorough": ["perm256.R20"] + HASH_Q + ["hash.update.u", "hash.oneshot.grid"],
+    "pre": [native.katcheck], "campaign": native.lib_campaign("hash"),
+    "text": "real tinyjambu-hash.c == MDPH spec monitor (in the contract stub of tinyjambu_permutation_256): per 16-byte block two 2560-step encryptions under key R || M, inputs L^dom and L^dom^1, feed-forward XORs, 10* padding and domain 2 for the final block, output L || R little-endian; update from an ARBITRARY valid state; one-shot = init; update; finalize; free (call-sequence contract); composed with L0 (permutation_256, R = 20 == bit-serial NLFSR).",
+    "note": "quick tier: update is covered by the bounded grid (posn x inlen shapes, every alignment, symbolic data); the unbounded loop-contract proof of hash_update for every inlen runs in the thorough tier. memcpy/memset are byte loops of our own (stubs/mem.c, trusted). Big-endian branch of hash_compress (#if !LW_UTIL_LITTLE_ENDIAN) is not compiled and not verified. Compilers/optimisation levels not covered.",
+    "technique": "CBMC contracts: MDPH spec monitor in the permutation's contract stub + loop contract on hash_update",
+    "trusted": TRUSTED,
+}
+PROPS["C11"] = {
+    "level": "proof",
+    "quick": HASH_Q,
+    "thorough": HASH_Q + ["hash.update.u"],
+    "campaign": native.lib_campaign("hash"),
+    "text": "abstract-view contracts: update from an arbitrary valid state (any posn < 16, L, R, buffered bytes) advances the view by a byte-wise fold over its input (the monitor consumes bytes by its own cursor), hence any split into update calls gives the same view; init/reinit from arbitrary bytes establish the initial view completely; finalize = final(view); NULL/0 and empty updates leave the view unchanged; every function writes only its own state object (exact-size objects).",
+    "note": "the induction over the call history (each operation verified for all valid pre-states; init establishes validity from arbitrary bytes) is the standard representation-invariant meta-step, stated, not re-checked by the tool. Quick tier: bounded (posn, inlen) grid incl. the 'top up, compress, continue' path; thorough tier: unbounded loop contract for every inlen.",
+    "technique": "CBMC contracts with abstract view (representation invariant posn < 16) + loop contract",
+    "trusted": TRUSTED,
 }
 
 ALL = ["C%02d" % i for i in range(1, 21)]
